@@ -233,6 +233,27 @@ func pwCount(ns []*pwNode) int {
 	return n
 }
 
+// pwTypes lists the wire types of all fields in preorder.
+func pwTypes(ns []*pwNode) []protowire.Type {
+	var out []protowire.Type
+	for _, x := range ns {
+		out = append(out, x.typ)
+		out = append(out, pwTypes(x.kids)...)
+	}
+	return out
+}
+
+// pwApplies reports whether variant v changes a field of wire type t.
+func pwApplies(t protowire.Type, v int) bool {
+	switch {
+	case v >= 14 && v < 26:
+		return t != protowire.BytesType
+	case v >= 26:
+		return t == protowire.BytesType
+	}
+	return true
+}
+
 func pwAppend(dst []byte, nd *pwNode) []byte {
 	dst = protowire.AppendTag(dst, nd.num, nd.typ)
 	switch nd.typ {
